@@ -400,7 +400,8 @@ def content_equality(rep: Report, prog: Program) -> None:
                     for t in (a_.targets if isinstance(a_, ast.Assign) else [a_.target]):
                         if isinstance(t, ast.Attribute) and isinstance(t.value, ast.Name) and t.value.id == selfn and t.attr == attr:
                             n_seq += 1
-                            v = a_.value
+                            from ..util import inline_temps as _it
+                            v = _it(m.node, a_.value)
                             fresh = isinstance(v, (ast.Tuple, ast.List, ast.ListComp)) or isinstance(v, ast.Call) and isinstance(v.func, ast.Name) and v.func.id in ('tuple', 'list', 'sorted')
                             rep.ob(rule, m.fq(), f"{cname}.{attr} = {norm(v)[:50]}: a container of the class's own making", m.loc(a_), fresh,
                                    'built by the constructor: one container type, not shared with the caller' if fresh else
@@ -417,6 +418,8 @@ def content_equality(rep: Report, prog: Program) -> None:
     for a_ in own_nodes(init.node):
         if isinstance(a_, ast.Assign) and any(norm(t) == f"{selfn0}.values" for t in a_.targets):
             stored |= {t.id for t in a_.targets if isinstance(t, ast.Name)}
+            if isinstance(a_.value, ast.Name):          # `vals = list(values); self.values = vals`
+                stored.add(a_.value.id)
     stored_once = {x for x in stored if '.' in x or sum(1 for y in own_nodes(init.node) if isinstance(y, ast.Name) and y.id == x and isinstance(y.ctx, ast.Store)) == 1}
     for d in idx:
         g = d.generators[0]
